@@ -151,6 +151,57 @@ def search(ctx, deep):
                                {'reused_object': a.tolist(), 'fresh_object': b.tolist()},
                                'percent_point depends only on (theta, y, v)', f'{fam}.percent_point:history-dependence')
                 break
+    # containers: "vectors of any length" — the same numbers handed over as list, tuple, Series with a default, a
+    # permuted, an offset (sliced) or a string index must give the same element-wise (positional) answer as ndarrays.
+    # A container the UNCHANGED code does not serve at all for a family is only counted.
+    import pandas as pd
+    for fam in B.FAMS:
+        th = B.theta_grid(fam)[3] if fam != 'gumbel' else 2.0
+        c = B.make(fam, th)
+        yv = np.array([0.2, 0.55, 0.9, 0.35, 0.7])
+        vv = np.array([0.6, 0.3, 0.8, 0.35, 0.15])
+        with np.errstate(all='ignore'):
+            ref = np.asarray(c.percent_point(yv, vv), dtype=float)
+        n = len(yv)
+        long_y = pd.Series(np.concatenate([[0.11, 0.12, 0.13], yv]))
+        long_v = pd.Series(np.concatenate([[0.21, 0.22, 0.23], vv]))
+        forms = {
+            'list': (list(yv), list(vv)), 'tuple': (tuple(yv), tuple(vv)),
+            'series-default': (pd.Series(yv), pd.Series(vv)),
+            'series-permuted-index': (pd.Series(yv, index=[3, 1, 0, 4, 2]), pd.Series(vv, index=[3, 1, 0, 4, 2])),
+            'series-offset-index': (long_y.iloc[3:], long_v.iloc[3:]),
+            'series-string-index': (pd.Series(yv, index=list('abcde')), pd.Series(vv, index=list('abcde'))),
+            'series-y-only': (pd.Series(yv, index=[4, 3, 2, 1, 0]), vv),
+            'series-v-only': (yv, pd.Series(vv, index=[4, 3, 2, 1, 0])),
+            'float32': (yv.astype(np.float32).astype(float), vv.astype(np.float32).astype(float)),
+        }
+        for name, (yy, vv_) in forms.items():
+            checked += 1
+            if name == 'float32':
+                with np.errstate(all='ignore'):
+                    want = np.asarray(c.percent_point(np.asarray(yy), np.asarray(vv_)), dtype=float)
+                yy, vv_ = np.asarray(yy, dtype=np.float32), np.asarray(vv_, dtype=np.float32)
+                tol = 1e-6
+            else:
+                want, tol = ref, 0.0
+            try:
+                with np.errstate(all='ignore'):
+                    got = np.asarray(c.percent_point(yy, vv_), dtype=float).ravel()
+            except Exception as e:  # noqa
+                ctx.count(f'container:{fam}:{name}:unsupported({vc.exc_kind(e)})')
+                if name.startswith('series'):
+                    # Series are served by the unchanged code for every family: raising is a failure
+                    found += 1
+                    ctx.fail_input(f'{fam}.percent_point', {'theta': th, 'container': name, 'y': list(map(float, yv)), 'v': list(map(float, vv))},
+                                   f'{vc.exc_kind(e)}: {e}'[:200], 'a Series of probabilities is served element-wise by position',
+                                   f'{fam}.percent_point:container-dependent[{name}]')
+                continue
+            ctx.count(f'container:{fam}:{name}')
+            if not (got.shape == want.shape and np.all(np.abs(got - want) <= tol)):
+                found += 1
+                ctx.fail_input(f'{fam}.percent_point', {'theta': th, 'container': name, 'y': list(map(float, yv)), 'v': list(map(float, vv))},
+                               {'got': got.tolist(), 'ndarray_answer': want.tolist()},
+                               'the i-th output depends only on (y[i], v[i]) whatever the container', f'{fam}.percent_point:container-dependent[{name}]')
     ctx.support = {'oracle_checks': checked, 'failures': found, 'deep': deep}
 
 
